@@ -351,11 +351,18 @@ def rule_consumers(ctx):
         return ctx.missing(R, "visit_statement/push")
     conds = conditions_to(fn["body"], pushes[0]) or []
     cs = [c.replace(" ", "") for c in facts_str(conds)]
+    import sgrep
+
     le = let_env(fn["body"], pushes[0])
-    val = render(strip(le.get("value", {"k": "Path", "path": "?"}))).replace(" ", "") if "value" in le else ""
-    ok = len(cs) == 2 and cs[0].startswith("(letIfThenElse{cond,..}=stmt)") and cs[1] == "(letSome(Boolean{value})=value)" and val == "cond.meta().value_knowledge().get_reduces_to()"
-    ctx.check(R, "constant_conditional/reports-known-booleans-only", ok, "report under %s with value = %s" % (cs, val), site(CC, pushes[0]))
-    ctx.check(R, "constant_conditional/reports-that-value", "build_report(cond.meta(),*value)" in render(pushes[0]).replace(" ", ""), render(pushes[0])[:100], site(CC, pushes[0]))
+    pv = sgrep.params(fn)
+    ifl = [c for c in conds if c[0] == "iflet" and c[3]]
+    ok = len(conds) == 2 and len(ifl) == 2
+    if ok:
+        p1, p2 = ifl[0][1], ifl[1][1]
+        ok = p1["k"] == "PStruct" and last(p1["path"]) == "IfThenElse" and any(f_["name"] == "cond" and render(f_["pat"]).replace("&", "").strip() == "cond" for f_ in p1["fields"]) and bool(pv) and render(strip(ifl[0][2])) == pv[0]
+        ok = ok and render(p2).replace(" ", "") == "Some(Boolean{value})" and sgrep.match(sgrep.pattern("cond.meta().value_knowledge().get_reduces_to()"), ifl[1][2], {}, le)
+    ctx.check(R, "constant_conditional/reports-known-booleans-only", bool(ok), "report under %s" % cs, site(CC, pushes[0]))
+    ctx.check(R, "constant_conditional/reports-that-value", sgrep.match(sgrep.pattern("build_report(cond.meta(), value)"), pushes[0]["args"][0], {}, {k_: v_ for k_, v_ in le.items() if k_ != "value"}), render(pushes[0])[:100], site(CC, pushes[0]))
     # message polarity
     for q, f in fns_in_file(CC):
         if f["name"] == "into_report":
